@@ -456,7 +456,14 @@ func init() {
 					var obs c12Obs
 					body := c12Body(sc, &obs)
 					cfg := vrt.ExploreCfg{Bound: tierBound(tier, 2, 3), Menu: menuTSE, Deadline: deadline, MaxExecs: tierBound(tier, 20000, 2000000),
-						Check: func(x *vrt.Exec) []vrt.Violation { return c12Check(sc, x, &obs) },
+						Exec: vrt.Config{Race: raceMode},
+						Check: func(x *vrt.Exec) []vrt.Violation {
+							out := c12Check(sc, x, &obs)
+							if raceMode {
+								out = append(out, raceViolations(x)...)
+							}
+							return out
+						},
 						Outcome: func(x *vrt.Exec) string {
 							var parts []string
 							if obs.h != nil {
